@@ -32,6 +32,35 @@ CFG = {
 }
 
 
+# concurrent model (three racing tasks): operations each task may start
+CONC = {
+    "quick": [("race/1-1-2", dict(ReqX="{TRUE, FALSE}", ReqY="{TRUE, FALSE}", MaxGen=2, NSnd=1, NRcv=1, NCtl=2))],
+    "thorough": [("race/2-2-3", dict(ReqX="{TRUE, FALSE}", ReqY="{TRUE, FALSE}", MaxGen=2, NSnd=2, NRcv=2, NCtl=3))],
+}
+
+
+def write_conc_cfg(path, c, emit, deviations=()):
+    with open(path, "w") as f:
+        f.write(f"""SPECIFICATION Spec
+CONSTANTS
+  ReqX = {c['ReqX']}
+  ReqY = {c['ReqY']}
+  MaxGen = {c['MaxGen']}
+  NSnd = {c['NSnd']}
+  NRcv = {c['NRcv']}
+  NCtl = {c['NCtl']}
+  SndOps = {{"S", "SR", "SC", "BYE"}}
+  RcvOps = {{"RcR", "RcC", "RvR", "RfR", "RvC", "RfC"}}
+  CtlOps = {{"KX", "KY", "BX", "BY", "B0"}}
+  Deviations = {setstr(deviations)}
+VIEW view
+INVARIANTS TypeOK
+PROPERTIES EgressOK IngressOK AllowedInside
+ACTION_CONSTRAINT {'EmitEdge' if emit else 'NoEmit'}
+CHECK_DEADLOCK FALSE
+""")
+
+
 def setstr(xs):
     return "{" + ", ".join(json.dumps(x) for x in xs) + "}"
 
@@ -54,7 +83,7 @@ CHECK_DEADLOCK FALSE
 
 def sig_of(d):
     """Structural classification of a divergence (never the property id alone)."""
-    return {"sub": "gate", "rule": d.get("rule"), "op": d.get("op"), "field": d.get("field"),
+    return {"sub": "gate", "rule": d.get("rule"), "op": d.get("origin_op") or d.get("op"), "field": d.get("field"),
             "tr": d.get("tr"), "sink": d.get("sink"),
             "required": d.get("req", {}).get(d.get("tr") or "X"),
             "has_keys": (d.get("gen", {}).get(d.get("tr") or "X", 0) > 0)}
@@ -79,11 +108,11 @@ def run_pinned(cpu, name, args, timeout=600, env=None):
 
 
 def nshards(tier):
-    return 8 if tier == "quick" else min(16, vlib.NCPU)
+    return {"quick": 8, "one": 1}.get(tier, min(16, vlib.NCPU))
 
 
-def replay_file(ck, beh_path, label, tier, extra_env=None):
-    """Run the behaviours through the real transports in N worker processes."""
+def replay_file(ck, beh_path, label, tier, extra_env=None, mode="replay"):
+    """Run the behaviours (mode replay) / schedules (mode sched) through the real transports in N worker processes."""
     n = nshards(tier)
     tag = f"{label.replace('/', '_')}.{os.getpid()}"
     outs = [os.path.join(ck.dir, f"replay_{tag}.{i}.ndjson") for i in range(n)]
@@ -94,12 +123,13 @@ def replay_file(ck, beh_path, label, tier, extra_env=None):
         # one CPU per worker: a transport's datagrams and the sentinel then share one loopback backlog queue, so
         # arrival order = send order (the verdict does not depend on it - datagrams are attributed by content -
         # but the exact per-step expectation (EXT) and the `late` counter do)
-        return run_pinned(cpus[i % len(cpus)], "gate", ["replay", beh_path, outs[i], f"{i}/{n}"], timeout=3000,
+        return run_pinned(cpus[i % len(cpus)], "gate", [mode, beh_path, outs[i], f"{i}/{n}"], timeout=3000,
                           env=extra_env)
 
     with concurrent.futures.ThreadPoolExecutor(max_workers=n) as ex:
         procs = list(ex.map(one, range(n)))
-    summ = {"behaviours": 0, "steps": 0, "datagrams": 0, "deliveries": 0, "diverged": 0, "late": 0, "stale": 0}
+    summ = {"behaviours": 0, "steps": 0, "datagrams": 0, "deliveries": 0, "diverged": 0, "late": 0, "stale": 0,
+            "unspecified": 0}
     for i, p in enumerate(procs):
         if p.returncode != 0:
             raise vlib.ToolError(f"gate replayer shard {i} failed rc={p.returncode}: {p.stderr[-2000:]}")
@@ -108,10 +138,11 @@ def replay_file(ck, beh_path, label, tier, extra_env=None):
             if r.get("type") == "summary":
                 got_summary = True
                 for k in summ:
-                    summ[k] += r[k]
+                    summ[k] += r.get(k, 0)
             elif r.get("type") == "divergence":
                 if r.get("rule") == "EXT":
-                    ck.drift.append({k: r.get(k) for k in ("op", "step", "expected", "observed", "req", "gen", "inbound")})
+                    ck.drift.append({k: r.get(k) for k in ("mode", "field", "op", "step", "expected", "observed", "req", "gen",
+                                                           "inbound") if r.get(k) is not None})
                 else:
                     ck.divergence(sig_of(r), r)
         if not got_summary:
@@ -171,6 +202,41 @@ def run(tier):
                         f"{summ['datagrams']} datagrams classified, {summ['deliveries']} deliveries traced, "
                         f"{summ['late']} datagrams arrived after their step's sentinel, {summ['stale']} stale")
         os.remove(beh)
+    # ---- the same operations racing from three tasks: every (state, task step) edge of the concurrent model is
+    # executed on the real transports under the baton scheduler (exact interleaving at the H7 sched points)
+    for label, consts in CONC[tier]:
+        cfg = os.path.join(vlib.SPEC, f"MC_SrtpGateConc_{tier}_{os.getpid()}.gen.cfg")
+        write_conc_cfg(cfg, consts, emit=True)
+        edges = os.path.join(ck.dir, f"edges_{label.replace('/', '_')}.{os.getpid()}.ndjson")
+        try:
+            res = vlib.tlc("MC_SrtpGateConc", os.path.basename(cfg), tags=("EDGE",), sinks={"EDGE": edges},
+                           timeout=3000 if tier == "thorough" else 900, heap="8g", tag=f"MC_SrtpGateConc_{tier}")
+        finally:
+            try:
+                os.remove(cfg)
+            except OSError:
+                pass
+        vlib.tlc_ok(res, label)
+        ck.add_tlc(res, label)
+        summ = replay_file(ck, edges, label, tier, mode="sched")
+        if summ["behaviours"] != res["counts"]["EDGE"]:
+            raise vlib.ToolError(f"executed {summ['behaviours']} of {res['counts']['EDGE']} schedules")
+        if not res["finished"]:
+            exhaustive = False
+        total += summ["behaviours"]
+        ck.cov["evaluations"] += summ["steps"] + summ["datagrams"] + summ["deliveries"]
+        with open(edges) as f:
+            for i, line in enumerate(f):
+                o = json.loads(line)
+                # rule-relevant: the step emits / delivers, or an SRTP-mandatory transport is involved in it
+                if o["exp"][0] or o["exp"][1] or o["exp"][2] < 2 or o["exp"][3] < 2:
+                    nontriv.add(hashlib.blake2b(line.encode(), digest_size=8).digest())
+                if i % 9973 == 11 and len(ck.cov["samples"]) < 10:
+                    ck.cov["samples"].append(o)
+        ck.notes.append(f"{label}: {res['counts']['EDGE']} (state, task step) edges executed as exact schedules, "
+                        f"{summ['steps']} steps, {summ['datagrams']} datagrams classified, {summ['deliveries']} deliveries "
+                        f"traced, {summ['unspecified']} schedules cut at a step whose outcome the model leaves unspecified")
+        os.remove(edges)
     ck.cov["traces_validated_against_impl"] = total
     ck.cov["distinct_nontrivial"] = len(nontriv)
     ck.cov["exhaustive"] = exhaustive
@@ -180,7 +246,8 @@ def run(tier):
                       "emission on an SRTP-mandatory transport or feeds a packet to an SRTP-mandatory receiver")
     ck.assumptions += [
         "bounded: sequence length and key generations as listed in tlc_runs; two transports (X driven, Y bridge target)",
-        "sequential replay: one operation at a time (the racing variant is the concurrent model / thorough tier)",
+        "sequential replay: one operation at a time; racing: three tasks (sender, receiver, control) interleaved at the "
+        "granularity of the code's critical sections (H7 sched points), operations per task as listed in tlc_runs",
         "datagram class decided by an independent receiver context of rustrtc's own SRTP implementation holding the "
         "installed sessions' keys, plus a known-plaintext scan; cipher/HMAC arithmetic itself is C04's subject",
         "loopback UDP keeps order between a transport's datagrams and the sentinel sent through the same socket",
@@ -196,12 +263,17 @@ def replay(path):
     with open(path) as f:
         rec = json.load(f)
     case = rec["record"]["case"]
+    mode = "sched" if rec["record"].get("mode") == "sched" else "replay"
     prof = {"Aes128Sha1_80": 0, "Aes128Sha1_32": 1, "AeadAes128Gcm": 2}.get(rec["record"].get("profile"))
-    if prof is not None:
+    if prof is not None and mode == "replay":
         case = dict(case, profile=prof)
     bp = os.path.join(ck.dir, f"replay_one.{os.getpid()}.ndjson")
-    vlib.write_ndjson(bp, [case])
-    summ = replay_file(ck, bp, "one", "quick")
+    # the behaviour's position in its file seeds the concretisation: keep it
+    idx = int(rec["record"].get("behaviour", 0))
+    with open(bp, "w") as f:
+        f.write("\n" * idx)
+        f.write(json.dumps(case) + "\n")
+    summ = replay_file(ck, bp, "one", "one", mode=mode)
     os.remove(bp)
     ck.cov.update(states=1, transitions=1, traces_validated_against_impl=summ["behaviours"], samples=[case])
     ck.finish()
@@ -221,5 +293,14 @@ def selftest():
         os.remove(cfg)
         hit = any(expect[dev] in e or "NothingBeforeKeys" in e or "StepInside" in e for e in res["errors"])
         print(f"selftest: deviation {dev}: model violates {expect[dev]}: {hit} ({res['errors'][:1]})")
+        ok = ok and hit
+    for dev, prop in (("send_rtp", "EgressOK"), ("sync_bye", "EgressOK"), ("bridge", "EgressOK"), ("recv_rtp", "IngressOK"),
+                      ("recv_rtcp", "IngressOK"), ("AuthFailOpen", "IngressOK")):
+        cfg = os.path.join(vlib.SPEC, f"MC_SrtpGateConc_selftest_{os.getpid()}.gen.cfg")
+        write_conc_cfg(cfg, CONC["quick"][0][1], emit=False, deviations=[dev])
+        res = vlib.tlc("MC_SrtpGateConc", os.path.basename(cfg), timeout=600, workers=4, tag="MC_SrtpGateConc_selftest")
+        os.remove(cfg)
+        hit = any(prop in e or "AllowedInside" in e for e in res["errors"])
+        print(f"selftest: racing model, deviation {dev}: violates {prop}: {hit} ({res['errors'][:1]})")
         ok = ok and hit
     raise SystemExit(0 if ok else 2)
